@@ -76,7 +76,7 @@ def baseline_call(rng, tu):
     """with or without re-seeding: the model receives the stream the call will consume"""
     text = gens.lines(tu)
     p = rng.choice([0.0, 0.25, 0.5, 0.75, 1.0])
-    reseed = rng.choice([None, None, 7, 13])
+    reseed = rng.choice([None, None, None, 7, 13, 0, 0, 2**32 - 1, 2**63 + 11, 10**30])
     ntok = sum(len(l.strip().split(' ')) for l in text)
     box = {}
 
@@ -96,8 +96,32 @@ def dibs_call(rng):
     c = None
     while c is None:
         c = c01.dibs_case(rng, 'history-dibs')
-    inner = c['impl']
-    key = ('dibs', str(c['desc']))
+    key = ('dibs', str(c['desc']))        # the input kind is NOT part of the key
+    # the same call as c10.make_case builds, with the training and test texts given as list, tuple or generator
+    d = c['desc']
+    train, test, sep, level, typ = d['train'], d['test'], d['sep'], d['level'], d['type']
+    thr = Fraction(d['threshold'])
+    pwb = None if d['pwb'] is None else Fraction(d['pwb'])
+    k1, k2 = rng.choice(['list', 'tuple', 'generator']), rng.choice(['list', 'tuple', 'generator'])
+
+    def impl():
+        def f():
+            m = dibs.CorpusSummary(as_kind(train, k1), separator=Separator(*sep), level=level)
+            summ = dict(nlines=m.summary['nlines'], nwords=m.summary['nwords'], nphones=m.summary['nphones'],
+                        lexicon=dict(m.lexicon),
+                        phrase_initial={k[0]: v for k, v in m.phrase_initial.items()},
+                        phrase_final={k[0]: v for k, v in m.phrase_final.items()},
+                        internal=dict(m.internal_diphones), spanning=dict(m.spanning_diphones),
+                        diphones=dict(m.diphones))
+            try:
+                out = ('ok', list(dibs.segment(as_kind(test, k2), m, type=typ, threshold=float(thr),
+                                               pwb=None if pwb is None else float(pwb))))
+            except Exception as e:  # noqa
+                out = ('raise', type(e).__name__)
+            return summ, out
+        return call_impl(f)
+    c['impl'] = impl
+    c['desc'] = dict(d, family='history-dibs-%s-%s' % (k1, k2))
     c['oracle'] = lambda out: repeatable(key, out)
     return c
 
@@ -153,6 +177,8 @@ def main():
         total.extend(ordered)
     for c in total:
         ck.count('family:' + c['desc']['family'].split('-njobs')[0])
+        if c['site'] == 'baseline.segment':
+            ck.count('baseline_reseed:%s' % c['desc']['reseed'])
     correspond(ck, total)
     # dpseg: same result for every job count and on repeated calls (stand-in seeded by --randseed)
     extra = []
@@ -160,9 +186,12 @@ def main():
         tu, _ = gens.random_text(rng, ['a', 'b', 'c', 'd'], nutts=rng.randint(3, 9))
         nf = rng.randint(1, len(tu))
         outs = []
-        for nj in (1, 1, 2, 4):
-            outs.append(call_impl(lambda: list(dpseg.segment(gens.lines(tu), nfolds=nf, njobs=nj, args='--randseed 5'))))
-            ck.case('dpseg-njobs:%d:%d' % (k, nj), True, sample={'dpseg': gens.lines(tu), 'nfolds': nf, 'njobs': nj})
+        for j, nj in enumerate((1, 1, 2, 4, 8, 3)):
+            kind = ['list', 'tuple', 'generator'][(j + k) % 3]
+            outs.append(call_impl(lambda: list(dpseg.segment(as_kind(gens.lines(tu), kind), nfolds=nf, njobs=nj, args='--randseed 5'))))
+            ck.case('dpseg-njobs:%d:%d:%d' % (k, j, nj), True, sample={'dpseg': gens.lines(tu), 'nfolds': nf, 'njobs': nj, 'input': kind})
+            ck.count('dpseg_njobs:%d' % nj)
+            ck.count('dpseg_input:' + kind)
         if any(o != outs[0] for o in outs):
             ck.violation({'site': 'dpseg.segment', 'input': {'text': gens.lines(tu), 'nfolds': nf}, 'outputs': [repr(o) for o in outs]},
                          'property fails on the implementation: dpseg.segment differs across job counts / repeated calls')
@@ -210,14 +239,30 @@ def main():
             if res[0] != res[1]:
                 ck.violation({'site': 'ag.segment', 'input': {'text': gens.lines(tu), 'args': args}, 'outputs': [repr(r) for r in res]},
                              'property fails on the implementation: ag.segment with a fixed seed and one job differs between two calls')
+        # seed 0 is a seed like any other (the program used to read it as "seed from the clock"): an ambiguous
+        # text and few iterations, so that the seed matters, and more than a second between the two calls
+        import time
+        r0 = random.Random(3)
+        tu = [[r0.choice('abcdefg') for _ in range(r0.randint(3, 9))] for _ in range(25)]
+        for seed, nruns in ((0, 1), (0, 2)) if not ck.thorough else ((0, 1), (0, 2), (1, 1), (65535, 2)):
+            res = []
+            for rep in range(2):
+                r, runs, left, args = c02.run_case(ck, bindir, tu, None, 3, 1, seed, nruns, 1, 0, None, 'Colloc0', 'ag-repeat-seed%d' % seed)
+                res.append(r)
+                ck.case('ag-repeat-seed:%d:%d:%d' % (seed, nruns, rep), True, sample={'ag': gens.lines(tu)[:3], 'args': args})
+                if rep == 0:
+                    time.sleep(1.1)
+            if res[0] != res[1]:
+                ck.violation({'site': 'ag.segment', 'input': {'text': gens.lines(tu), 'args': args, 'nruns': nruns}, 'outputs': [repr(r)[:300] for r in res]},
+                             'property fails on the implementation: ag.segment with the fixed seed %d and one job differs between two calls made a second apart' % seed)
     except Exception as e:  # noqa
         ck.cov['ag_note'] = 'real ag not exercised: ' + str(e)[-200:]
     n, problems = ck.coq_recheck()
     finish_proof_failures(ck, failures + problems)
     return ck.finish(
-        rule='%d histories of 6-20 calls in one process mixing TP, DiBS, PUDDLE (frozen model / online with njobs in {1,2,4,8} x nfolds) and the baseline (re-seeded or continuing the global stream), '
+        rule='%d histories of 6-20 calls in one process mixing TP, DiBS, PUDDLE (frozen model / online with njobs in {1,2,4,8} x nfolds) and the baseline (re-seeded with 0, small and very large seeds, or continuing the global stream), '
              'inputs given as list, tuple or generator; every call compared with the model\'s answer for that call alone (for the baseline: for the stream position read from the interpreter just before the call) '
-             'and with the first result of the same call in the history; dpseg across job counts; _setup_seed on generated argument strings; repeated single-job AG runs on the real program. '
+             'and with the first result of the same call in the history; dpseg across job counts 1-8 with list, tuple and generator inputs; _setup_seed on generated argument strings; repeated single-job AG runs on the real program. '
              'Non-trivial: every call.' % nh,
         assumptions=['purity of an implementation is a correspondence over histories, not a model property', 'determinism of the dpseg program itself cannot be examined here (not buildable)'])
 
